@@ -404,15 +404,17 @@ var (
 	cancelOpts  = []kgo.Opt{kgo.AllowIdempotentProduceCancellation(), kgo.RecordRetries(1), kgo.RecordDeliveryTimeout(5 * time.Second)}
 )
 
+// I-1p comes last: the k=1 scenarios finish early and their unused time rolls
+// over to its deeper levels.
 var plans = []nrun.Plan{
-	{Scenario: scenario(variant{name: "I-1p", nparts: 1, move: true, recs: four, opts: retryOpts}),
-		QuickBudget: 2, QuickFaultOnlyFrom: 2, ThoroughBudget: 3, ThoroughFaultOnlyFrom: 3, Weight: 1.5},
 	{Scenario: scenario(variant{name: "I-2p", nparts: 2, move: true, recs: six}),
 		QuickBudget: 1, ThoroughBudget: 2, ThoroughFaultOnlyFrom: 2},
 	{Scenario: scenario(variant{name: "I-fail", nparts: 2, move: true, recs: six, opts: timeoutOpts}),
 		QuickBudget: 1, ThoroughBudget: 2, ThoroughFaultOnlyFrom: 2},
 	{Scenario: scenario(variant{name: "I-cancel", nparts: 2, move: true, recs: six, relaxed: true, cancelRec: "r3", opts: cancelOpts}),
 		QuickBudget: 1, ThoroughBudget: 2, ThoroughFaultOnlyFrom: 2},
+	{Scenario: scenario(variant{name: "I-1p", nparts: 1, move: true, recs: four, opts: retryOpts}),
+		QuickBudget: 2, QuickFaultOnlyFrom: 2, ThoroughBudget: 3, ThoroughFaultOnlyFrom: 3, Weight: 2},
 }
 
 func TestC02(t *testing.T) {
